@@ -11,6 +11,8 @@ Everything is extracted from src/network/server.rs (brace-matched function bodie
 * `wakeLogs`       — does `wake_client` append to the log (itself or through a Server method it calls)? (pops served to blocked clients)
 * `blockingPopLogged` — the same for the immediate pop of `handle_blpop` / `handle_brpop`
 * `execSelectSelects` — `handle_exec` runs a queued SELECT through `handle_select(cmd_parts, conn_id)` (it selects)
+* `randomByEffect` — SPOP / `XADD key *` are excluded from the verbatim append and appended after the dispatch as `effect_entry(…)`
+* `evalshaAsEval`  — EVALSHA is excluded likewise and `handle_evalsha_command` appends the `EVAL script …` it stands for
 * `selectTracked`  — the entry is written through `append_command_in_db(db, parts)`, which emits `SELECT db` on a database change
 
 `facts()` returns the same as a Python dict (used by lib/c11.py to configure the driver without importing a
@@ -128,6 +130,8 @@ def facts(src, strip_comments, fn_body, repo=None):
     out["dispatchNames"] = None
     out["appendBeforeDispatch"] = None
     out["selectTracked"] = None
+    out["randomByEffect"] = None
+    out["evalshaAsEval"] = None
     if pnc is None:
         out["errors"].append("fn process_normal_command not found in network/server.rs")
     else:
@@ -143,7 +147,7 @@ def facts(src, strip_comments, fn_body, repo=None):
                 out["dispatchNames"] = names
             before = pnc[:mm.start()]
             ap = re.search(r"if\s+let\s+Some\s*\(\s*aof\s*\)\s*=\s*&\s*self\s*\.\s*aof_engine\s*\{\s*"
-                           r"if\s+self\s*\.\s*is_write_command\s*\(\s*&\s*command_name\s*\)\s*\{\s*"
+                           r"if\s+self\s*\.\s*is_write_command\s*\(\s*&\s*command_name\s*\)\s*(&&\s*!\s*logged_by_effect\s*)?\{\s*"
                            r"if\s+let\s+Err\s*\(\s*\w+\s*\)\s*=\s*aof\s*\.\s*"
                            r"(append_command\s*\(\s*parts\s*\)|append_command_in_db\s*\(\s*db\s*,\s*parts\s*\))", before)
             n_sites = len(re.findall(APPEND_CALL, pnc))
@@ -155,9 +159,22 @@ def facts(src, strip_comments, fn_body, repo=None):
                 # `SELECT db` entry first whenever the previous entry ran in another database
                 aof_rs = strip_comments(src("storage/aof.rs"))
                 indb = fn_body(aof_rs, "append_command_in_db")
-                tracked = bool(ap) and "append_command_in_db" in ap.group(1) and indb is not None and \
+                tracked = bool(ap) and "append_command_in_db" in ap.group(2) and indb is not None and \
                     bool(re.search(r'from_string\s*\(\s*"SELECT"\s*\)', indb)) and bool(re.search(r"!=\s*Some\s*\(\s*db\s*\)|!=\s*db\b", indb))
                 out["selectTracked"] = tracked
+                # by-effect logging: `logged_by_effect = Self::is_logged_by_effect(&command_name, parts)` excludes the command from the
+                # append before the dispatch; after the dispatch `effect_entry(&command_name, parts, resp)` is appended
+                ibe, ee = fn_body(server, "is_logged_by_effect"), fn_body(server, "effect_entry")
+                after = pnc[mm.start():]
+                by_effect = bool(ap) and bool(ap.group(1)) and ibe is not None and ee is not None and \
+                    bool(re.search(r"let\s+logged_by_effect\s*=\s*Self\s*::\s*is_logged_by_effect\s*\(\s*&\s*command_name\s*,\s*parts\s*\)", before)) and \
+                    bool(re.search(r"if\s+logged_by_effect\s*\{.*?Self\s*::\s*effect_entry\s*\(\s*&\s*command_name\s*,\s*parts\s*,\s*resp\s*\).*?self\s*\.\s*log_effect\s*\(\s*db\s*,", after, re.S))
+                names = set(re.findall(r'"([A-Z]+)"', ibe or ""))
+                out["randomByEffect"] = by_effect and {"SPOP", "XADD"} <= names and '"SREM"' in (ee or "")
+                # EVALSHA: excluded from the verbatim append, and handle_evalsha_command appends the EVAL it stands for
+                hev = fn_body(server, "handle_evalsha_command")
+                out["evalshaAsEval"] = by_effect and "EVALSHA" in names and hev is not None and \
+                    bool(re.search(r"self\s*\.\s*log_effect\s*\(\s*db\s*,\s*&\s*eval_parts\s*\)", hev))
     # ---- every other caller of append_command (AofEngine): which functions log?
     sites = []
     for rel, text in all_sources(src, strip_comments, repo):
@@ -176,17 +193,17 @@ def facts(src, strip_comments, fn_body, repo=None):
     else:
         out["execSelectSelects"] = bool(re.search(r"self\s*\.\s*handle_select\s*\(\s*&?\s*cmd_parts\s*,\s*conn_id\s*\)", hexec))
 
-    def logs(fn):
-        """does `fn` append to the log — itself or through a method of Server it calls?  None: function not found"""
+    def logs(fn, depth=3):
+        """does `fn` append to the log — itself or through methods of Server it calls?  None: function not found"""
         body = fn_body(server, fn)
         if body is None:
             return None
         if re.search(APPEND_CALL, body):
             return True
-        for callee in set(re.findall(r"\bself\s*\.\s*(\w+)\s*\(", body)):
-            b = fn_body(server, callee)
-            if b is not None and re.search(APPEND_CALL, b):
-                return True
+        if depth > 0:
+            for callee in set(re.findall(r"\bself\s*\.\s*(log_\w+)\s*\(", body)):
+                if logs(callee, depth - 1):
+                    return True
         return False
 
     out["wakeLogs"] = logs("wake_client")
@@ -280,5 +297,18 @@ def generate(src, strip_comments, fn_body, header, repo=None):
         failed("selectTracked", "Bool", err or "append site not found")
     else:
         L.append("def selectTracked : Bool := %s" % ("true" if f["selectTracked"] else "false"))
+    L.append("")
+    L.append("/-- are SPOP and `XADD key *` appended after the dispatch by their effect (`is_logged_by_effect`, `effect_entry`:")
+    L.append("    `SREM key members…`, `XADD key <assigned id> …`) instead of verbatim before it? -/")
+    if f["randomByEffect"] is None:
+        failed("randomByEffect", "Bool", err or "append site not found")
+    else:
+        L.append("def randomByEffect : Bool := %s" % ("true" if f["randomByEffect"] else "false"))
+    L.append("")
+    L.append("/-- is EVALSHA appended as the `EVAL script …` it stands for (by `handle_evalsha_command`) instead of verbatim? -/")
+    if f["evalshaAsEval"] is None:
+        failed("evalshaAsEval", "Bool", err or "append site not found")
+    else:
+        L.append("def evalshaAsEval : Bool := %s" % ("true" if f["evalshaAsEval"] else "false"))
     L += ["", "end Ferrous.Gen", ""]
     return "\n".join(L)
